@@ -837,7 +837,158 @@ impl Scenario for ClientScn {
     }
 }
 
+/// A plain, prompt stream peer for the long-haul modes: every request is
+/// answered at once with an address record carrying the number in its name.
+async fn prompt_stream_peer(listener: SimListener) {
+    while let Some(acc) = listener.accept().await {
+        tokio::task::spawn_local(async move {
+            let mut stream = acc.stream;
+            let mut inbuf: Vec<u8> = Vec::new();
+            let mut tmp = [0u8; 4096];
+            loop {
+                let n = match stream.read(&mut tmp).await {
+                    Ok(0) | Err(_) => return,
+                    Ok(n) => n,
+                };
+                inbuf.extend_from_slice(&tmp[..n]);
+                while inbuf.len() >= 2 {
+                    let len = u16::from_be_bytes([inbuf[0], inbuf[1]]) as usize;
+                    if inbuf.len() < 2 + len {
+                        break;
+                    }
+                    let body: Vec<u8> = inbuf[2..2 + len].to_vec();
+                    inbuf.drain(..2 + len);
+                    let k = dns::parse(&body).and_then(|p| k_of_qname(&p.qname)).unwrap_or(usize::MAX);
+                    let reply = dns::mk_reply(&body, 0x0100_0000 + k as u32, false, Rcode::NOERROR).expect("reply");
+                    if stream.write_all(&dns::frame(&reply)).await.is_err() {
+                        return;
+                    }
+                }
+            }
+        });
+    }
+}
+
+/// Long haul: more exchanges on one stream connection than there are
+/// message ids (65536), one after the other, each answered at once. No
+/// fault, no draw and no log line per exchange - just repetition: every one
+/// of them gets its own answer, the 65537th like the first.
+async fn long_haul(multi: bool) {
+    sim::stat("probe.long_haul_more_exchanges_than_message_ids");
+    let n = 65_600 + sim::draw("long_haul.extra", 200) as usize;
+    ev!("long haul: {} exchanges over one {} connection", n, if multi { "multiplexed stream" } else { "stream" });
+    let listener = net::listener("haul");
+    let local = tokio::task::LocalSet::new();
+    local
+        .run_until(async move {
+            tokio::task::spawn_local(prompt_stream_peer(listener.clone()));
+            let quiet: Arc<dyn Fn(usize) -> ConnectPlan + Send + Sync> = Arc::new(|_| ConnectPlan::default());
+            let connector = listener.connector(addr(1, 41_000), quiet);
+            let mut st_cfg = stream::Config::new();
+            st_cfg.set_response_timeout(Duration::from_secs(5));
+            let conn: Rc<dyn SendRequest<RequestMessage<Vec<u8>>>> = if multi {
+                let (c, t) = multi_stream::Connection::with_config(connector, multi_stream::Config::from(st_cfg));
+                tokio::spawn(t.run());
+                Rc::new(c)
+            } else {
+                let s = connector.connect_sim().await.expect("connect");
+                let (c, t) = stream::Connection::<RequestMessage<Vec<u8>>, domain::net::client::request::RequestMessageMulti<Vec<u8>>>::with_config(s, st_cfg);
+                tokio::spawn(t.run());
+                Rc::new(c)
+            };
+            for k in 0..n {
+                let req = RequestMessage::new(dns::mk_query(&format!("r{}.sim.", k), Rtype::A, true)).expect("request");
+                let res = conn.send_request(req).get_response().await;
+                let ok = match &res {
+                    Ok(m) => dns::parse(m.as_slice()).is_some_and(|p| p.qr && k_of_qname(&p.qname) == Some(k) && p.tokens == vec![0x0100_0000 + k as u32]),
+                    Err(_) => false,
+                };
+                if !ok {
+                    sim::sync_clock();
+                    sim::violation(
+                        P,
+                        "completion",
+                        format!("long-haul/exchange-failed-on-a-healthy-connection/{}", if multi { "Multi" } else { "Stream" }),
+                        format!("exchange number {} (of {}) on one connection to a peer that answers everything at once ended with {}", k + 1, n, match &res { Ok(_) => "an answer that is not its own".to_string(), Err(e) => format!("{:?}", e) }),
+                    );
+                    return;
+                }
+            }
+            sim::sync_clock();
+            ev!("long haul: done");
+        })
+        .await;
+}
+
+/// The caller lets go of its last handle to the connection while its request
+/// is outstanding: the request object alone keeps the exchange alive and
+/// gets the answer the peer sends afterwards.
+async fn last_handle_dropped() {
+    sim::stat("probe.last_connection_handle_dropped_with_a_request_outstanding");
+    let listener = net::listener("lone");
+    let local = tokio::task::LocalSet::new();
+    local
+        .run_until(async move {
+            tokio::task::spawn_local(prompt_stream_peer(listener.clone()));
+            let latency = 1 + sim::draw("lone.latency_ms", 3);
+            let plan: Arc<dyn Fn(usize) -> ConnectPlan + Send + Sync> = Arc::new(move |_| {
+                let mut p = ConnectPlan::default();
+                p.client_cfg.latency_ms = latency;
+                p.server_cfg.latency_ms = latency;
+                p
+            });
+            let s = listener.connector(addr(1, 42_000), plan).connect_sim().await.expect("connect");
+            let mut st_cfg = stream::Config::new();
+            st_cfg.set_response_timeout(Duration::from_secs(5));
+            let (conn, t) = stream::Connection::<RequestMessage<Vec<u8>>, domain::net::client::request::RequestMessageMulti<Vec<u8>>>::with_config(s, st_cfg);
+            tokio::spawn(t.run());
+            let mut conn = Some(conn);
+            let earlier = sim::draw("lone.earlier_requests", 3) as usize;
+            for k in 0..=earlier {
+                let req = RequestMessage::new(dns::mk_query(&format!("r{}.sim.", k), Rtype::A, true)).expect("request");
+                let mut g = SendRequest::send_request(conn.as_ref().expect("handle"), req);
+                let res = if k == earlier {
+                    // The request is on its way; the handle goes.
+                    let first = tokio::time::timeout(Duration::from_micros(1 + sim::draw("lone.drop_after_us", 3000)), g.get_response()).await;
+                    ev!("the caller drops its last handle to the connection, request k={} outstanding", k);
+                    match first {
+                        Ok(r) => {
+                            conn = None;
+                            r
+                        }
+                        Err(_) => {
+                            conn = None;
+                            let r = g.get_response().await;
+                            sim::sync_clock();
+                            let ok = matches!(&r, Ok(m) if dns::parse(m.as_slice()).is_some_and(|p| k_of_qname(&p.qname) == Some(k)));
+                            if !ok {
+                                sim::violation(P, "completion", "failed-after-the-last-handle-was-dropped/Stream".to_string(), format!("request k={} was outstanding when the caller dropped its last handle to the connection; the peer answered at once, the request ended with {:?}", k, r.as_ref().map(|_| "another answer").map_err(|e| format!("{:?}", e))));
+                            }
+                            return;
+                        }
+                    }
+                } else {
+                    g.get_response().await
+                };
+                if res.is_err() {
+                    sim::sync_clock();
+                    sim::violation(P, "unexplained-error", "Stream/lone-handle-mode".to_string(), format!("request k={} to a prompt peer failed: {:?}", k, res.err()));
+                    return;
+                }
+            }
+        })
+        .await;
+}
+
 async fn run(_tier: Tier) {
+    // Two special modes of their own (no faults, a prompt peer): a long haul
+    // and a caller that lets go of the connection early.
+    match sim::draw("special_mode", 12_000) {
+        0 => return long_haul(false).await,
+        1 => return long_haul(true).await,
+        2..=120 => return last_handle_dropped().await,
+        _ => {}
+    }
     let kinds = [Kind::Dgram, Kind::Stream, Kind::Multi, Kind::DgramStream, Kind::Redundant, Kind::LoadBalancer];
     let kind = *sim::pick("kind", &kinds);
     let faulty = sim::draw("faulty", 4) != 0;
